@@ -8,6 +8,34 @@ ALL = ['C%02d' % i for i in range(1, 21)]
 
 # id -> (technique, level text, level note, design ref)
 CHECKS = {
+    'C01': (
+        'small-scope enumeration + Hypothesis models against an independent position-automaton membership oracle',
+        'For every model of the enumerated scopes (seeded slice in quick, complete in thorough) and every child sequence '
+        'up to length 5-6 over the instance alphabet, and for Hypothesis-generated larger models with random walks of '
+        'the automaton and their one-edit mutants, is_valid() must equal membership in the unrolled Glushkov automaton '
+        '(both directions) and a rejected sequence must carry an error at the parent; XSD 1.0 and 1.1; element, '
+        'substitution-head, wildcard, group-reference, all-group and open-content leaves. Three known-finding classes '
+        '(weak-only determinism, 1.1 wildcard precedence, nested-choice over-acceptance) are excluded by construction and '
+        'counted; regressions confined to them are invisible.',
+        'trusted: vf/oracles/cm.py (self-tested against Python re on every run); leaves are empty xs:string elements / lax wildcards',
+        'DESIGN.md section 3 C01'),
+    'C12': (
+        'exhaustive catalogue with interpreter audit-hook observation against a reference predicate on resolved locations',
+        'Every row of allow mode x source kind x mechanism (include/import/redefine/override/location hint/locations=/uri_mapper) '
+        'x 22 (target, spelling) pairs is executed for XSD 1.0 and 1.1 while sys.addaudithook records every file open and '
+        'urllib request; no observed fetch may fall outside the allowed class (path-component containment for the sandbox), '
+        'a denied file\'s marker declaration must be absent from the schema and must not change a verdict. Complete within '
+        'the catalogue; symlinks and platform-specific path forms are out of scope.',
+        'trusted: the audit hook sees every open/urllib.Request of the process; stub opener stands for remote hosts',
+        'DESIGN.md section 3 C12'),
+    'C13': (
+        'catalogue product + Hypothesis-generated prologs against a documentation-derived applicability table, audit-hook observation',
+        'defuse mode x 11 source kinds x 12 DTD payloads x 4 encodings x role (instance, main schema, included schema), '
+        'plus Hypothesis prologs (padding up to 70 KiB, comments that look like declarations, PIs, BOMs): where defusing '
+        'applies and an entity is declared or an external DTD subset is named the outcome must be XMLResourceForbidden with '
+        'no open of the canary file; clean documents must parse to the same tree as an undefused parse.',
+        'trusted: applicability table (vf/checks/c13.py applies()); cells the statement leaves open are reported, not asserted',
+        'DESIGN.md section 3 C13'),
     'C04': (
         'differential testing over Hypothesis-generated schemas and documents (all entry points x modes x 12 source kinds x CLI)',
         'Random docgen schemas and documents (valid by construction or damaged by 1-3 typed faults whose invalidity the '
